@@ -135,6 +135,44 @@ def plain_run(prop, tier, seed):
             "wall_s": round(time.time() - t, 1)}
 
 
+class FnSpec:
+    """A property decided by Props/<id>.v plus one or more correspondence / oracle runners."""
+
+    def __init__(self, runners, trust=None, assume=None, expl=""):
+        self.runners, self.trust, self.assume, self.expl = runners, trust or [], assume or [], expl
+
+    def run(self, prop, tier, seed):
+        out = []
+        for fn in self.runners:
+            t = time.time()
+            r = fn(prop, tier, seed)
+            r.setdefault("wall_s", round(time.time() - t, 1))
+            out.append(r)
+        return out
+
+    def replay(self, prop, path):
+        with open(path) as f:
+            rp = json.load(f)
+        runs = self.run(prop, rp.get("tier", "quick"), rp.get("seed", seed_from_env()))
+        fails = [f for r in runs for f in r.get("oracle_failures", [])]
+        mism = [m for r in runs for m in r.get("model_mismatches", [])]
+        return {"fails": bool(fails or mism), "oracle_failures": fails[:3], "model_mismatches": mism[:3]}
+
+    def trusted_base(self, prop):
+        return BASE_TRUST + self.trust
+
+    def assumptions(self, prop):
+        return self.assume
+
+    def explanation(self, prop):
+        return self.expl
+
+
+def k4_run(prop, tier, seed):
+    import k4
+    return k4.run(tier, seed)
+
+
 CANDIDATES = {
     "C01": K1Spec("C01", ["C01"]),
     "C02": K1Spec("C02", ["C02"]),
@@ -143,6 +181,13 @@ CANDIDATES = {
     "C11": K1Spec("C11", ["C11"]),
     "C12": K1Spec("C12", ["C12", "C01", "C03-result"]),
     "C17": K1Spec("C17", ["C17"]),
+    "C08": FnSpec([k4_run],
+                  trust=["strace 6.1 (syscall trace and SIGKILL injection); in-process writer shim (harness/k4_child.py) for byte-prefix crash points"],
+                  assume=["process crash only (no power loss / fsync claim)", "POSIX rename is atomic within a directory; open(...,'wb') truncates",
+                          "user-space buffers are lost at the crash (os._exit / SIGKILL)"],
+                  expl="Theorems in coq/Props/C08.v over Crash.v (all crash points, all byte prefixes, any number of files); "
+                       "Crash.save_prog tied to /repo by comparing it, inside Coq, with the file operations strace observes for every kind of save; "
+                       "failing-input search = killing a child at every line / file operation / byte prefix and inspecting the survivors."),
 }
 # a property is claimed once its theorem file exists
 REGISTRY = {p: s for p, s in CANDIDATES.items()
